@@ -33,6 +33,28 @@ class InjectedMemoryError(InjectedFault, MemoryError):
     pass
 
 
+FAULT_KINDS = ("exception", "worker_death", "memory")
+
+
+def make_fault(kind: str, msg: str) -> BaseException:
+    """What real deployments meet: an ordinary exception in the job, the worker process dying
+    (loky raises TerminatedWorkerError, a BrokenProcessPool), or MemoryError."""
+    if kind == "worker_death":
+        from joblib.externals.loky.process_executor import TerminatedWorkerError
+        e = TerminatedWorkerError("injected: " + msg)
+    elif kind == "memory":
+        e = InjectedMemoryError("injected: " + msg)
+    else:
+        e = InjectedWorkerDeath("injected: " + msg)
+    e.verif_injected = True
+    return e
+
+
+def is_injected(e: BaseException) -> bool:
+    return isinstance(e, InjectedFault) or getattr(e, "verif_injected", False) \
+        or "injected: " in str(e)
+
+
 class CallRecord:
     __slots__ = ("index", "site", "n_jobs", "W", "mode", "delivery", "exec_order",
                  "lazy", "failed", "fingerprints")
